@@ -703,6 +703,30 @@ C09_NotAhead ==
           \/ Report("C09", "C09_NotAhead", <<k, "content at", store[k].fields[RevField], "claimed by", vs>>)
 
 \* =======================================================================================
+\* X01 / X02 -- work-queue discipline (spec/Requeue.tla); behaviour beyond the listed properties
+\* =======================================================================================
+QOps(e) == { e.queue[i].op : i \in DOMAIN e.queue }
+X01_QueueDiscipline ==
+  (IsEv("SyncEnd") /\ E.a \in DOMAIN ctx /\ ctx[E.a].active /\ E.result \in {"ok", "error"})
+  => \/ (E.result = "ok" /\ "Forget" \in QOps(E) /\ ~Requeued(E))
+     \/ (E.result = "error" /\ Requeued(E) /\ "Forget" \notin QOps(E))
+     \/ Report("X01", "X01_QueueDiscipline", <<E.result, E.queue>>)
+ResyncMs == IF HasExpect("resyncMs") THEN expect.resyncMs ELSE [x \in {"0"} |-> 0]
+MinOf(S) == CHOOSE m \in S : \A n \in S : m <= n
+X02_ResyncAfter ==
+  (IsEv("SyncEnd") /\ E.a \in DOMAIN ctx /\ ctx[E.a].active /\ E.result \in {"ok", "error"} /\ ctx[E.a].nHooks > 0 /\ ~ctx[E.a].hook429)
+  => LET c == ctx[E.a]
+         txts == { c.hookSeq[i].resp.resync : i \in DOMAIN c.hookSeq }
+         pos  == { ResyncMs[t] : t \in txts } \ {0}
+         accepted == /\ ~c.hookFail /\ ~c.gateBad /\ (\A i \in DOMAIN c.hookSeq : c.hookSeq[i].resp.wellFormed)
+                     /\ (E.result = "ok" \/ E.errPhase = "manage") IN
+     \/ ~(txts \subseteq DOMAIN ResyncMs)
+     \/ (c.hookFail /\ AfterOf(E) = {})                                   \* a failed hook call asks for nothing
+     \/ (~c.hookFail /\ ~accepted)                                        \* rejected answer: nothing demanded
+     \/ (accepted /\ AfterOf(E) = (IF pos = {} THEN {} ELSE {MinOf(pos)}))
+     \/ Report("X02", "X02_ResyncAfter", <<"asked", txts, "queue", E.queue, E.result>>)
+
+\* =======================================================================================
 \* anti-vacuity: how often was each monitor's antecedent true in this trace?  (TLC registers; the
 \* trace spec is deterministic and runs with one worker)
 \* =======================================================================================
